@@ -33,7 +33,7 @@ COMPONENTS = {
 }
 ASSUMPTIONS = ["a caller treats a MaxCycles return as 'the whole budget elapsed' and an event return as "
                "'cycles_executed elapsed' (the reading under which budgets partition a run)"]
-PROBES = ["task_yields_without_sleep", "sleep_built_before_spawn", "sleep_for_ever", "unbounded_budget", "same_cycle_tie", "sleep_zero", "budget_zero", "budget_lt_sleep", "event_returned", "late_spawn",
+PROBES = ["display_task_frame", "task_yields_without_sleep", "sleep_built_before_spawn", "sleep_for_ever", "unbounded_budget", "same_cycle_tie", "sleep_zero", "budget_zero", "budget_lt_sleep", "event_returned", "late_spawn",
           "two_events_same_cycle", "start_clock_big", "async_slice_1", "async_timer_fired", "async_halt"]
 DUR = [0, 1, 2, 3, 5, 8, 13]
 BIG = 1 << 20
@@ -56,8 +56,9 @@ def _gen_task(r: Rng, with_events: bool) -> List[list]:
         # how the task waits: 0 = sleep_cycles(d).await; 1 = it returns Pending once without asking for a wake-up
         # (the driver's rule: polled again one cycle later); 2 = the sleep future was built before the task was
         # spawned (a plan made up front) and is only awaited here — its deadline still counts from the await
-        st = r.weighted([(0, 8), (1, 2), (2, 2)])
-        steps.append([1 if st == 1 else d, e, st])
+        st = r.weighted([(0, 8), (1, 2), (2, 2), (3, 2 if e is not None else 0)])
+        # 3 = one frame of the crate's AsyncDisplayTask (period max(d, 1), emits the event itself)
+        steps.append([1 if st == 1 else (max(d, 1) if st == 3 else d), e, st])
     if r.chance(1, 12):
         steps.append([U64MAX, None, r.choice([0, 2])])      # parks itself for ever
     return steps
@@ -307,6 +308,8 @@ def stats(scn: Dict[str, Any], hist: Dict[str, Any]) -> Dict[str, Any]:
             probes["task_yields_without_sleep"] = 1
         if 2 in styles:
             probes["sleep_built_before_spawn"] = 1
+        if 3 in styles:
+            probes["display_task_frame"] = 1
         if any(st[0] >= NEVER for t in scn["tasks"] for st in t):
             probes["sleep_for_ever"] = 1
         if scn.get("drain") == U64MAX:
